@@ -23,7 +23,7 @@ from puresnmp.adt import (
 )
 from puresnmp.credentials import V3, Credentials
 from puresnmp.exc import SnmpError
-from puresnmp.pdu import GetRequest, PDUContent
+from puresnmp.pdu import GetRequest, PDUContent, Report
 from puresnmp.plugins.security import SecurityModel
 from puresnmp.transport import MESSAGE_MAX_SIZE
 from puresnmp.util import get_request_id, localise_key, validate_response_id
@@ -312,7 +312,22 @@ def verify_authentication(
     """
 
     if not message.header.flags.auth:
-        return
+        if not credentials.auth:
+            return
+        # The user requires authentication but the message claims a lower
+        # security level (see RFC 3414 section 3.2, step 7). The only
+        # unauthenticated messages an agent legitimately sends are reports
+        # (f.ex. "unknown user-name", "wrong digest"). These are surfaced
+        # as errors and anything else is refused.
+        scoped_pdu = message.scoped_pdu
+        if isinstance(scoped_pdu, ScopedPDU) and isinstance(
+            scoped_pdu.data, Report
+        ):
+            validate_usm_message(cast(PlainMessage, message))
+        raise AuthenticationError(
+            "Received an unauthenticated message for a user which "
+            "requires authentication!"
+        )
 
     if not credentials.auth:
         raise UnsupportedSecurityLevel(
